@@ -50,6 +50,16 @@ def expand(paths, seed, nvar=2):
     return out
 
 
+def _op_class(op):
+    if op == 0:
+        return "continuation"
+    if op in (1, 2):
+        return "data"
+    if op in (8, 9, 10):
+        return "control"
+    return "reserved-data" if op < 8 else "reserved-control"
+
+
 def _len_class(n):
     return "0" if n == 0 else ("<=125" if n <= 125 else ">125")
 
@@ -69,7 +79,7 @@ def make_sig(cfg, v, path, i, exp, obs):
             ctl_in_frag = True
     return {"role": v["role"], "deflate": cfg["deflate"],
             "frame": {"op": f["op"], "rsv": f["rsv"], "fin": f["fin"], "len_class": _len_class(f["len"]), "mid": f["mid"]},
-            "in_frag": in_frag, "frag_comp": frag_comp, "ctl_in_frag": ctl_in_frag,
+            "op_class": _op_class(f["op"]), "in_frag": in_frag, "frag_comp": frag_comp, "ctl_in_frag": ctl_in_frag,
             "differs": sorted(k for k in exp if exp[k] != obs.get(k)),
             "exp_closed": exp["closed"], "obs_closed": obs["closed"],
             "exp_1009": exp["sent1009"], "obs_1009": obs["sent1009"]}
@@ -133,7 +143,7 @@ def random_trace(job):
                         if op >= 8:
                             f = {"fin": 1, "rsv": 0, "op": op, "len": rng.choice([0, 2]), "mid": 0, "lo": 0}
                         elif cur is None:
-                            f = {"fin": 1, "rsv": 0, "op": op, "len": 3, "mid": 1, "lo": 0}
+                            f = {"fin": rng.choice([0, 1]), "rsv": 0, "op": op, "len": 3, "mid": 1, "lo": 0}
                     elif k == "fragctl":
                         f = {"fin": 0, "rsv": 0, "op": rng.choice([8, 9, 10]), "len": rng.choice([0, 2]), "mid": 0, "lo": 0}
                     elif k == "bigctl":
@@ -185,7 +195,7 @@ def trace_sig(t, bad, l):
     f = bad["args"][0]
     return {"role": t.get("role"), "deflate": t["cfg"]["deflate"],
             "frame": {"op": f["op"], "rsv": f["rsv"], "fin": f["fin"], "len_class": _len_class(f["len"])},
-            "obs_closed": bad["obs"]["closed"], "obs_1009": bad["obs"]["sent1009"]}
+            "op_class": _op_class(f["op"]), "obs_closed": bad["obs"]["closed"], "obs_1009": bad["obs"]["sent1009"]}
 
 
 def coverage_names(out):
@@ -219,6 +229,12 @@ def run(ctx):
     ctx.replay(expand(paths, ctx.seed), replayer)
     ctx._phase("s2c", t0)
     ctx.cov["exhaustive"] = True
+    # longer seeded TLC walks with every cut kind
+    t0 = time.time()
+    sims = ctx.sim_paths("ws", "Gen_WsReceiver", "Gen_WsReceiver.cfg", num=ctx.pick(150, 3000), depth=12,
+                         overrides={"L": 12, "PieceKinds": '{"zero", "one", "half", "rest1"}', "CtlLens": "{0, 5, 125}"})
+    ctx.replay(expand(sims, ctx.seed), replayer, label="s2c")
+    ctx._phase("s2c-sim", t0)
     # code -> spec: seeded random frame sequences recorded from the real receiver, judged by TLC
     t0 = time.time()
     n = ctx.pick(300, 5000)
@@ -240,4 +256,10 @@ def replay(ctx, rec):
         r = replayer(d["extra"], d["path"])
         print("replay:", "diverges " + framework.jdump(r) if r else "follows the specification")
         return 1 if r else 0
-    return 0
+    t = d["trace"]
+    os.environ["WS_CATALOG"] = cat().write(os.path.join(ctx.scratch, "catalog.ndjson"))
+    v = ctx.validate("ws", "Trace_WsReceiver", "Trace_WsReceiver.cfg", [t], sig_fn=trace_sig,
+                     env={"WS_CATALOG": os.environ["WS_CATALOG"]})
+    bad = v[t["id"]]
+    print("replay:", "trace rejected at event %s" % bad["at"] if bad else "trace accepted by the specification")
+    return 1 if bad else 0
